@@ -159,12 +159,40 @@ class RenumberParticles(Contract):
                 ("other_fields_unchanged", _unchanged(out, old, [c for c in MOTL_COLS if c != "subtomo_id"]), ()), ("rows_kept", z3.simplify(out.present) == z3.BoolVal(True), ())]
 
 
-CONTRACTS = [GetSubset, RemoveFeature, Intersection, MergeAndRenumber, RenumberParticles]
+class SplitByFeature(Contract):
+    """split_by_feature(field): one list per distinct value of the field; the generic row lies in the piece of its own value (and, the pieces being
+    selected by equality with pairwise different values, in no other), unchanged, under the 20-field schema"""
+    prop = "C08"
+    module = "cryomotl"
+    qual = "Motl.split_by_feature"
+    configs = [{"feature": "tomo_id"}, {"feature": "object_id"}, {"feature": "class"}]
+
+    def cfg_name(self, cfg):
+        return cfg["feature"]
+
+    def bind(self, cx, cfg):
+        it = common.motl_interp()
+        df = common.fresh_motl_frame(angles=False)
+        me = common.motl_obj(it, df)
+        return (lambda: it.function("Motl.split_by_feature").bind(me)(cfg["feature"])), {"me": me, "old": common.old_row()}
+
+    def post(self, cx, cfg, inp, res):
+        old = inp["old"]
+        ok = isinstance(res, list) and len(res) == 1 and hasattr(res[0], "df") and isinstance(res[0].df, frames.GFrame)
+        cl = [("one_piece_per_distinct_value", z3.BoolVal(bool(ok)))]
+        if not ok:
+            return cl
+        out = res[0].df
+        return cl + [("schema_20_fields", _schema(out)), ("row_lies_in_the_piece_of_its_own_value", z3.simplify(out.present) == z3.BoolVal(True), ()),
+                     ("rows_unchanged", _unchanged(out, old), ()), ("frame.self_untouched", _unchanged(inp["me"].df, old), ())]
+
+
+CONTRACTS = [GetSubset, RemoveFeature, Intersection, MergeAndRenumber, RenumberParticles, SplitByFeature]
 LEVEL = "proof"
 EXPLANATION = ("Membership (with multiplicity), row preservation and the 20-field schema are postconditions of get_motl_subset, remove_feature, get_motl_intersection, "
                "merge_and_renumber (2 and 3 inputs: object numbers of different inputs differ for arbitrary rows, ids = position+1) and renumber_particles, proved on generic rows "
                "of the real AST; selection/removal complementarity as a lemma; since every operation's contract has wf(old) => wf(new) the schema holds after any history. "
-               "Order inside results, drop_duplicates (sort), split_by_feature, renumber_objects_sequentially (groupby.apply) and merge_and_drop_duplicates: bounded histories only.")
+               "Order inside results, drop_duplicates (sort), renumber_objects_sequentially (groupby.apply) and merge_and_drop_duplicates: bounded histories only.")
 ASSUMPTIONS = ["pandas contract: inner merge on a shared column repeats a left row once per matching right row, Series.drop_duplicates keeps one row per value; concat keeps all rows; min/max of a column bound every row",
                "requires of get_motl_subset: requested values distinct (duplicates would duplicate rows, as documented by the loop)"]
 
